@@ -66,7 +66,7 @@ func (c *Ctx) heapWFAxiom(key, name string) string {
 	if bound == "" {
 		bound = "alloc0"
 	}
-	if key == "Ptr" {
+	if baseSort(key) == "Ptr" {
 		return fmt.Sprintf("(forall ((o Int) (i Int)) (! (and (>= (pobj (select (select %s o) i)) 0) (< (pobj (select (select %s o) i)) %s)) :pattern ((select (select %s o) i))))", name, name, bound, name)
 	}
 	if strings.HasPrefix(key, "map!") && strings.HasSuffix(key, "!val") {
@@ -87,7 +87,7 @@ func (c *Ctx) heapWFAxiom(key, name string) string {
 		}
 		return ""
 	}
-	if key != "Slice" {
+	if baseSort(key) != "Slice" {
 		if t, ok := sortTypes[key]; ok {
 			cell := fmt.Sprintf("(select (select %s o) i)", name)
 			if w := c.wfTerm(cell, t, bound, 0); w != "true" {
@@ -105,7 +105,7 @@ func (c *Ctx) wantSliceWF(key, name string) {
 	if c.declared["slicewf:"+name] {
 		return
 	}
-	if key != "Slice" && key != "Ptr" && !(strings.HasPrefix(key, "map!") && strings.HasSuffix(key, "!val")) {
+	if baseSort(key) != "Slice" && baseSort(key) != "Ptr" && !(strings.HasPrefix(key, "map!") && strings.HasSuffix(key, "!val")) {
 		if _, ok := sortTypes[key]; !ok {
 			return
 		}
@@ -478,13 +478,13 @@ func (fr *frame) load(st *State, p Val, pos token.Pos) Val {
 			root = c.zero(rt)
 		}
 	} else {
-		es := c.sortOf(rt)
+		es := c.hk(rt)
 		root = c.rd(c.heap(st, es), c.acc("pobj", p.T), c.acc("pidx", p.T))
 	}
 	t := fr.readPath(rt, root, p.Path)
 	v := Val{T: c.define("ld", c.sortOf(resTy), t), Ty: resTy}
 	if p.Local == nil {
-		es := c.sortOf(rt)
+		es := c.hk(rt)
 		h := c.heap(st, es)
 		if _, derived := c.heapDefs[h]; !derived {
 			if _, isDef := c.defs[h]; !isDef {
@@ -515,7 +515,7 @@ func (fr *frame) store(st *State, p Val, v Val) {
 		st.locals[p.Local] = c.define("loc", c.sortOf(rt), fr.writePath(rt, root, p.Path, v.T))
 		return
 	}
-	es := c.sortOf(rt)
+	es := c.hk(rt)
 	h := c.heap(st, es)
 	obj, idx := c.acc("pobj", p.T), c.acc("pidx", p.T)
 	var newRoot string
@@ -524,7 +524,7 @@ func (fr *frame) store(st *State, p Val, v Val) {
 	} else {
 		newRoot = fr.writePath(rt, c.rd(h, obj, idx), p.Path, v.T)
 	}
-	c.wrElem(st, es, obj, idx, c.define("st", es, newRoot))
+	c.wrElem(st, es, obj, idx, c.define("st", baseSort(es), newRoot))
 }
 
 // assumeWF assumes well-formedness / allocatedness of a value of reference type.
@@ -1310,13 +1310,13 @@ func (fr *frame) execInstr(ins ssa.Instruction, st *State) {
 		}
 		if at, ok := rt.Underlying().(*types.Array); ok {
 			// arrays live in the element heap so that they can be sliced
-			es := c.sortOf(at.Elem())
+			es := c.hk(at.Elem())
 			obj := fr.allocObj(st, x.Name())
-			c.wrObj(st, es, obj, fmt.Sprintf("((as const (Array Int %s)) %s)", es, c.zero(at.Elem())))
+			c.wrObj(st, es, obj, fmt.Sprintf("((as const (Array Int %s)) %s)", baseSort(es), c.zero(at.Elem())))
 			fr.vals[x] = Val{T: fmt.Sprintf("(mkptr %s 0)", obj), Ty: x.Type()}
 			return
 		}
-		es := c.sortOf(rt)
+		es := c.hk(rt)
 		obj := fr.allocObj(st, x.Name())
 		c.wrElem(st, es, obj, "0", c.zero(rt))
 		fr.vals[x] = Val{T: c.define("new_"+x.Name(), "Ptr", fmt.Sprintf("(mkptr %s 0)", obj)), Ty: x.Type()}
@@ -1887,9 +1887,9 @@ func (fr *frame) execMakeSlice(x *ssa.MakeSlice, st *State) {
 	ln, cp := fr.val(x.Len), fr.val(x.Cap)
 	fr.safety("makeslice", fmt.Sprintf("(and (>= %s 0) (<= %s %s))", ln.T, ln.T, cp.T), "makeslice: len out of range", x.Pos())
 	et := x.Type().Underlying().(*types.Slice).Elem()
-	es := c.sortOf(et)
+	es := c.hk(et)
 	obj := fr.allocObj(st, x.Name())
-	c.wrObj(st, es, obj, fmt.Sprintf("((as const (Array Int %s)) %s)", es, c.zero(et)))
+	c.wrObj(st, es, obj, fmt.Sprintf("((as const (Array Int %s)) %s)", baseSort(es), c.zero(et)))
 	fr.vals[x] = Val{T: c.define("mk_"+x.Name(), "Slice", fmt.Sprintf("(mkslice %s 0 %s %s)", obj, ln.T, cp.T)), Ty: x.Type()}
 	fr.ghostAlloc(st, ln.T, et)
 }
